@@ -80,7 +80,13 @@ func RebalanceWeight(clusters []*WeightCluster, initialWeight int) {
 			}
 			cl.Weight = propWeight
 		} else {
-			cl.Weight = int(weight)
+			newWeight := int(weight)
+			if newWeight == 0 && cl.Weight > 0 {
+				// the exact value is at least `initialWeight`, so zero can only
+				// come from float rounding: a weighted group must not be disabled
+				newWeight = 1
+			}
+			cl.Weight = newWeight
 		}
 	}
 }
